@@ -17,10 +17,10 @@ else
   git -C /repo worktree add -q --detach "$W" "$P" || exit 3
 fi
 if [ "${SKIP_BASELINE:-0}" != 1 ]; then
-  if VERIF_REPO="$W" /verif/baseline.sh >"$O/baseline.log" 2>&1; then echo "baseline tests: PASS"; else echo "baseline tests: FAIL"; tail -20 "$O/baseline.log"; fi
+  if VERIF_REPO="$W" "${VERIF_DIR:-/verif}"/baseline.sh >"$O/baseline.log" 2>&1; then echo "baseline tests: PASS"; else echo "baseline tests: FAIL"; tail -20 "$O/baseline.log"; fi
 fi
 for c in "$@"; do
   echo "== $c"
-  VERIF_REPO="$W" VERIF_OUT="$O" /verif/check.sh "$c" --tier "${TIER:-quick}" 2>&1 | grep -v "^C[0-9]*/" | head -${LINES_MAX:-12}
+  VERIF_REPO="$W" VERIF_OUT="$O" "${VERIF_DIR:-/verif}"/check.sh "$c" --tier "${TIER:-quick}" 2>&1 | grep -v "^C[0-9]*/" | head -${LINES_MAX:-12}
   echo "exit=$?"
 done
